@@ -44,10 +44,29 @@ Theorem C07_returns_fifo : forall codes s c v,
 Proof. exact returns_queue_fifo. Qed.
 Print Assumptions C07_returns_fifo.
 
-(* Known finding: a Return error still queued when the broker closes the channel is raised for ever; the close reason is never reached. *)
-Theorem C07_masked_close_refuted : exists i, c07_ok i (chan_model i) = false.
-Proof. exists ((1%nat, [{| st_chan := 1%nat; st_op := AIdle; st_script := [[(1%nat, {| f_name := NReturn; f_num := (312)%Z; f_str := ([]%N) |}); (1%nat, {| f_name := NHeader; f_num := (0)%Z; f_str := ([]%N) |})]] |}; {| st_chan := 1%nat; st_op := AIdle; st_script := [[(1%nat, {| f_name := NChClose; f_num := (404)%Z; f_str := ([]%N) |})]] |}; {| st_chan := 1%nat; st_op := AAck; st_script := [] |}; {| st_chan := 1%nat; st_op := AAck; st_script := [] |}])). vm_compute. reflexivity. Qed.
-Print Assumptions C07_masked_close_refuted.
+(* a returned message is reported once whatever the state of the channel *)
+Theorem C07_return_raised_once_any_state : forall s c v e rest,
+  conn_healthy s -> c_errs v = e :: rest -> e_kind e = EMsg ->
+  exists s', chan_check s c v = (s', with_errs v rest, Raise e) /\
+             conn_healthy s' /\ s_out s' = s_out s.
+Proof. exact chan_check_msg_once. Qed.
+Print Assumptions C07_return_raised_once_any_state.
+
+(* Returns still queued when the broker closes the channel do not mask its reason:
+   each is raised once, in order, then the broker's code - on that call and on every
+   later one (this was the finding queued-error-masks-close, see KNOWN_FINDINGS.txt) *)
+Theorem C07_close_reason_reached : forall msgs reason s c v k,
+  conn_healthy s -> c_state v = CLOSED -> c_errs v = msgs ++ [reason] ->
+  Forall (fun e => e_kind e = EMsg) msgs -> e_kind reason = EChan ->
+  exists s' v', checks (length msgs + k) s c v =
+                  (s', v', map (fun e => Raise e) msgs ++ repeat (Raise reason) k) /\
+                c_errs v' = [reason] /\ c_state v' = CLOSED /\ s_out s' = s_out s.
+Proof. exact close_reason_reached. Qed.
+Print Assumptions C07_close_reason_reached.
+
+(* the history that used to fail *)
+Example C07_masked_close_history : let i := ((1%nat, [{| st_chan := 1%nat; st_op := AIdle; st_script := [[(1%nat, {| f_name := NReturn; f_num := (312)%Z; f_str := ([]%N) |}); (1%nat, {| f_name := NHeader; f_num := (0)%Z; f_str := ([]%N) |})]] |}; {| st_chan := 1%nat; st_op := AIdle; st_script := [[(1%nat, {| f_name := NChClose; f_num := (404)%Z; f_str := ([]%N) |})]] |}; {| st_chan := 1%nat; st_op := AAck; st_script := [] |}; {| st_chan := 1%nat; st_op := AAck; st_script := [] |}])) in c07_ok i (chan_model i) = true.
+Proof. vm_compute. reflexivity. Qed.
 
 Example C07_nonvacuous : (fun i o => c07_ok i o && c07_isolation_ok i o) ((2%nat, [{| st_chan := 1%nat; st_op := AIdle; st_script := [[(1%nat, {| f_name := NChClose; f_num := (404)%Z; f_str := ([]%N) |})]] |}; {| st_chan := 1%nat; st_op := AAck; st_script := [] |}; {| st_chan := 2%nat; st_op := (ARpc 0%nat); st_script := [[(2%nat, {| f_name := NDeclareOk; f_num := (1)%Z; f_str := ([]%N) |})]] |}; {| st_chan := 2%nat; st_op := AIdle; st_script := [[(2%nat, {| f_name := NReturn; f_num := (312)%Z; f_str := ([]%N) |}); (2%nat, {| f_name := NHeader; f_num := (0)%Z; f_str := ([]%N) |})]] |}; {| st_chan := 2%nat; st_op := AAck; st_script := [] |}; {| st_chan := 2%nat; st_op := AAck; st_script := [] |}]))
   (chan_model ((2%nat, [{| st_chan := 1%nat; st_op := AIdle; st_script := [[(1%nat, {| f_name := NChClose; f_num := (404)%Z; f_str := ([]%N) |})]] |}; {| st_chan := 1%nat; st_op := AAck; st_script := [] |}; {| st_chan := 2%nat; st_op := (ARpc 0%nat); st_script := [[(2%nat, {| f_name := NDeclareOk; f_num := (1)%Z; f_str := ([]%N) |})]] |}; {| st_chan := 2%nat; st_op := AIdle; st_script := [[(2%nat, {| f_name := NReturn; f_num := (312)%Z; f_str := ([]%N) |}); (2%nat, {| f_name := NHeader; f_num := (0)%Z; f_str := ([]%N) |})]] |}; {| st_chan := 2%nat; st_op := AAck; st_script := [] |}; {| st_chan := 2%nat; st_op := AAck; st_script := [] |}]))) = true.
